@@ -47,8 +47,8 @@ Definition get2 (m : list (list Z)) (i j : Z) : Z := getZ (mrow m i) j.
 Definition set2 (m : list (list Z)) (i j v : Z) : list (list Z) :=
   if i <? 0 then m else upd (Z.to_nat i) (setZ (mrow m i) j v) m.
 
-Definition zrange (n : Z) : list Z := map Z.of_nat (seq 0 (Z.to_nat n)).
-Definition zrange2 (lo hi : Z) : list Z := map (fun k => lo + Z.of_nat k) (seq 0 (Z.to_nat (hi - lo))).
+Definition zrange2 (lo hi : Z) : list Z := map Z.of_nat (seq (Z.to_nat lo) (Z.to_nat (hi - lo))).
+Definition zrange (n : Z) : list Z := zrange2 0 n.
 Definition zfill (n v : Z) : list Z := repeat v (Z.to_nat n).
 Definition zeros2 (n : Z) : list (list Z) := repeat (zfill n 0) (Z.to_nat n).
 Definition incr (l : list Z) (i : Z) : list Z := setZ l i (getZ l i + 1).
@@ -181,30 +181,32 @@ Definition tree_edges (m : EModel) (d : EData) (ntree : Z) (sched : list Z) : li
   fold_left (tree_edges_task m d) sched (zeros2 ntree).
 
 (* ---------- _flood_fill ---------- *)
-Record FF := mkFF { lab : list Z; stk : list Z; ns : Z }.
+(* lab = labels_in = tree_island_out; stk = stack_in = stack_out (ntree*ntree ints, wp.empty);
+   ns = nstack.  `bad` is a ghost flag, not a kernel variable: it is raised when a stack write
+   falls outside the scratch array (memory corruption in the real kernel; a no-op here) or when
+   the model's fuel cuts the `while` loop.  flood_fill_safe proves it stays false. *)
+Record FF := mkFF { lab : list Z; stk : list Z; ns : Z; bad : bool }.
+
+Definition in_array (l : list Z) (i : Z) : bool := (0 <=? i) && (i <? Z.of_nat (length l)).
 
 (* `for neighbor in range(ntree): if tree_tree[v, neighbor] != 0: if labels[neighbor] == -1: push` *)
-Definition push_step (adj : list (list Z)) (labs : list Z) (v : Z) (s : list Z * Z) (nb : Z) : list Z * Z :=
+Definition push_step (adj : list (list Z)) (v : Z) (s : FF) (nb : Z) : FF :=
   if negb (get2 adj v nb =? 0) then
-    if getZ labs nb =? -1 then (setZ (fst s) (snd s) nb, snd s + 1) else s
+    if getZ (lab s) nb =? -1 then
+      mkFF (lab s) (setZ (stk s) (ns s) nb) (ns s + 1) (bad s || negb (in_array (stk s) (ns s)))
+    else s
   else s.
-
-Definition push_neighbors (n : Z) (adj : list (list Z)) (labs : list Z) (v : Z) (s : list Z * Z) : list Z * Z :=
-  fold_left (push_step adj labs v) (zrange n) s.
 
 (* one iteration of `while nstack > 0` *)
 Definition dfs_step (n : Z) (adj : list (list Z)) (isl : Z) (s : FF) : FF :=
   let ns1 := ns s - 1 in
   let v := getZ (stk s) ns1 in
-  if negb (getZ (lab s) v =? -1) then mkFF (lab s) (stk s) ns1
-  else
-    let lab' := setZ (lab s) v isl in
-    let r := push_neighbors n adj lab' v (stk s, ns1) in
-    mkFF lab' (fst r) (snd r).
+  if negb (getZ (lab s) v =? -1) then mkFF (lab s) (stk s) ns1 (bad s)
+  else fold_left (push_step adj v) (zrange n) (mkFF (setZ (lab s) v isl) (stk s) ns1 (bad s)).
 
 Fixpoint dfs_loop (fuel : nat) (n : Z) (adj : list (list Z)) (isl : Z) (s : FF) : FF :=
   match fuel with
-  | O => s
+  | O => mkFF (lab s) (stk s) (ns s) (bad s || (0 <? ns s))
   | S f => if 0 <? ns s then dfs_loop f n adj isl (dfs_step n adj isl s) else s
   end.
 
@@ -214,19 +216,22 @@ Definition has_edge (n : Z) (adj : list (list Z)) (i : Z) : bool :=
 
 Definition ff_fuel (n : Z) : nat := Z.to_nat (n * n + n).
 
-(* body of `for i in range(ntree)`; state = (labels, stack array, nstack left by the last DFS, nisland) *)
+(* body of `for i in range(ntree)`; state = (labels/stack/nstack left by the last DFS, nisland) *)
 Definition ff_outer (n : Z) (adj : list (list Z)) (st : FF * Z) (i : Z) : FF * Z :=
-  let '(s, nisland) := st in
+  let s := fst st in
+  let nisland := snd st in
   if negb (getZ (lab s) i =? -1) then st
   else if negb (has_edge n adj i) then st
-  else (dfs_loop (ff_fuel n) n adj nisland (mkFF (lab s) (setZ (stk s) 0 i) 1), nisland + 1).
+  else (dfs_loop (ff_fuel n) n adj nisland
+          (mkFF (lab s) (setZ (stk s) 0 i) 1 (bad s || negb (in_array (stk s) 0))), nisland + 1).
 
 (* flood_fill: d.tree_island.fill_(-1); stack_scratch = wp.empty(ntree*ntree) = stk0 (arbitrary) *)
 Definition flood_fill (n : Z) (adj : list (list Z)) (stk0 : list Z) : FF * Z :=
-  fold_left (ff_outer n adj) (zrange n) (mkFF (zfill n (-1)) stk0 0, 0).
+  fold_left (ff_outer n adj) (zrange n) (mkFF (zfill n (-1)) stk0 0 false, 0).
 
 Definition ff_labels (n : Z) (adj : list (list Z)) (stk0 : list Z) : list Z := lab (fst (flood_fill n adj stk0)).
 Definition ff_nisland (n : Z) (adj : list (list Z)) (stk0 : list Z) : Z := snd (flood_fill n adj stk0).
+Definition ff_bad (n : Z) (adj : list (list Z)) (stk0 : list Z) : bool := bad (fst (flood_fill n adj stk0)).
 
 (* island(): (tree_island, nisland); ntree = 0 launches _zero_island_counts instead *)
 Definition island (m : EModel) (d : EData) (ntree : Z) (sched : list Z) (stk0 : list Z) : list Z * Z :=
@@ -382,3 +387,58 @@ Definition imap_flat (r : IMap) : list Z :=
   ++ o_map_dof2idof r ++ o_map_idof2dof r ++ o_dof_islandid r
   ++ o_efc_island r ++ o_island_nefc r ++ o_island_ne r ++ o_island_nf r ++ o_island_iefcadr r
   ++ o_map_efc2iefc r ++ o_map_iefc2efc r ++ o_efc_islandid r.
+
+(* whole pipeline with Warp's CPU schedule (ascending task ids), flattened in the order used by
+   bin/props/C28.py: tree_tree, tree_island, nisland, efc_tree, then every map array *)
+Definition pipeline_flat (m : EModel) (d : EData) (ntree : Z) : list Z :=
+  let sched := zrange (d_njmax d) in
+  let dsched := zrange (m_nv m) in
+  let tt := tree_edges m d ntree sched in
+  let isl := island m d ntree sched (zfill (ntree * ntree) 0) in
+  let et := compute_efc_tree m d sched in
+  let im := island_mapping (m_nv m) ntree (d_njmax d) (d_nefc d) (snd isl) (dof_treeid m) (fst isl) et (efc_type d)
+                           dsched sched dsched sched in
+  flat2 tt ++ fst isl ++ [snd isl] ++ et ++ imap_flat im.
+
+Definition flood_flat (n : Z) (adj : list (list Z)) (stk0 : list Z) : list Z :=
+  let r := flood_fill n adj stk0 in
+  lab (fst r) ++ [snd r; if bad (fst r) then 1 else 0] ++ stk (fst r).
+
+(* ---------- vocabulary of the specification (Props/C28.v) ---------- *)
+Definition inr (n a : Z) : Prop := 0 <= a < n.
+Definition edge (adj : list (list Z)) (a b : Z) : Prop := get2 adj a b <> 0.
+Definition sym_adj (n : Z) (adj : list (list Z)) : Prop :=
+  forall a b, inr n a -> inr n b -> edge adj a b -> edge adj b a.
+(* a, b joined by a path of edges through trees in range *)
+Inductive conn (n : Z) (adj : list (list Z)) : Z -> Z -> Prop :=
+| conn_refl : forall a, inr n a -> conn n adj a a
+| conn_step : forall a b c, conn n adj a b -> inr n c -> edge adj b c -> conn n adj a c.
+(* some constraint row involves tree a *)
+Definition touched (n : Z) (adj : list (list Z)) (a : Z) : Prop := exists j, inr n j /\ edge adj a j.
+Definition square (n : Z) (m : list (list Z)) : Prop :=
+  length m = Z.to_nat n /\ Forall (fun r => length r = Z.to_nat n) m.
+(* number of entries x of l with p x *)
+Definition cntf (p : Z -> bool) (l : list Z) : Z := Z.of_nat (length (filter p l)).
+
+(* island of a dof / of a constraint row as the mapping kernels see it, and the row's category
+   (0 equality, 1 friction, 2 everything else) *)
+Definition dof_isl (dof_tree tree_island : list Z) (d : Z) : Z := getZ tree_island (getZ dof_tree d).
+Definition row_isl (njmax nefc : Z) (efc_tree tree_island : list Z) (e : Z) : Z :=
+  if e <? Z.min njmax nefc then
+    (if getZ efc_tree e <? 0 then -1 else getZ tree_island (getZ efc_tree e))
+  else -1.
+Definition row_cat (etype : list Z) (e : Z) : Z :=
+  if getZ etype e =? EQUALITY then 0 else if is_fric (getZ etype e) then 1 else 2.
+
+(* reference component labelling used by the finite check: repeated relaxation of
+   "smallest reachable tree", then ranks of the representatives *)
+Definition relax_once (n : Z) (adj : list (list Z)) (rep : list Z) : list Z :=
+  map (fun a => fold_left (fun m b => if negb (get2 adj a b =? 0) || negb (get2 adj b a =? 0)
+                                       then Z.min m (getZ rep b) else m) (zrange n) (getZ rep a)) (zrange n).
+Fixpoint iter {A : Type} (k : nat) (f : A -> A) (x : A) : A := match k with O => x | S k' => iter k' f (f x) end.
+Definition ref_labels (n : Z) (adj : list (list Z)) : list Z * Z :=
+  let rep := iter (Z.to_nat n) (relax_once n adj) (zrange n) in
+  let tch := fun a => existsb (fun j => negb (get2 adj a j =? 0) || negb (get2 adj j a =? 0)) (zrange n) in
+  let roots := filter (fun a => tch a && (getZ rep a =? a)) (zrange n) in
+  let rank := fun r => Z.of_nat (length (filter (fun x => x <? r) roots)) in
+  (map (fun a => if tch a then rank (getZ rep a) else -1) (zrange n), Z.of_nat (length roots)).
